@@ -26,6 +26,8 @@ package plenc
 //@ func plenc.*baseRegistry.Store
 //@   safety C17
 //@   assigns H
+//@   # the codec registered last for (typ, tag) is the one found from then on - also when the key was taken already
+//@   ensures[C17] @sync.*Map.Load(br, boxed(plenc.registryKey, typ, tag)).ok && @sync.*Map.Load(br, boxed(plenc.registryKey, typ, tag)).value == c
 
 //@ func plenc.*baseRegistry.StoreOrSwap
 //@   safety C17 C08
@@ -88,9 +90,12 @@ package plenc
 //@ func plenc.*Plenc.RegisterCodec
 //@   safety C17
 //@   noglobals[C17]
+//@   # what is registered is what is found afterwards for exactly this type (and the empty tag), whatever was there before
+//@   ensures[C17] @sync.*Map.Load(p + 8, boxed(plenc.registryKey, typ, "")).ok && @sync.*Map.Load(p + 8, boxed(plenc.registryKey, typ, "")).value == c
 //@ func plenc.*Plenc.RegisterCodecWithTag
 //@   safety C17
 //@   noglobals[C17]
+//@   ensures[C17] @sync.*Map.Load(p + 8, boxed(plenc.registryKey, typ, tag)).ok && @sync.*Map.Load(p + 8, boxed(plenc.registryKey, typ, tag)).value == c
 //@ func plenc.*Plenc.CodecForType
 //@   safety C17
 //@   noglobals[C17]
